@@ -1,8 +1,10 @@
 (* C03 — evaluation of generated cases: model vs observed implementation output, and the checker. *)
 From Dastard Require Import Common.ZX Common.CaseLib C03.Model C03.Spec.
 
-(* [c_obs = None]: the harness process was killed by a panic of the reader loop *)
-Record case := { c_inp : input; c_obs : option (list block) }.
+(* [c_obs = None]: the harness process was killed by a panic of the reader loop.
+   [c_pre]: earlier runs (input, delivered blocks) on the SAME AbacoSource object, each ended by a
+   Stop before the next Start; every run is a run of the property in its own right. *)
+Record case := { c_pre : list (input * list block); c_inp : input; c_obs : option (list block) }.
 
 Definition seg_same (a b : seg) : bool :=
   (sg_first a =? sg_first b) && (sg_dropped a =? sg_dropped b) && zlist_eqb (sg_data a) (sg_data b).
@@ -27,14 +29,40 @@ Definition model_blocks_with (fill : group -> group * Z * Z) (keep : bool) (inp 
   end.
 Definition model_blocks := model_blocks_with fill_missing true.
 
-(* (code, index of the first differing block) *)
+(* One AbacoSource object keeps its frame counter (AnySource.nextFrameNum) across a Stop/Start:
+   the blocks of a later run are numbered on from where the previous run ended.  Everything else of a
+   run starts afresh (Sample rebuilds the groups).  So the model's blocks of a run are compared with
+   the observed ones after adding the frames delivered by the earlier runs. *)
+Definition shift_blocks (off : Z) (bl : list block) : list block :=
+  map (fun k => {| k_nsamp := k_nsamp k;
+                   k_segs := map (fun s => {| sg_first := sg_first s + off; sg_dropped := sg_dropped s;
+                                              sg_data := sg_data s |}) (k_segs k) |}) bl.
+Definition frames_of (bl : list block) : Z := fold_right (fun k acc => k_nsamp k + acc) 0 bl.
+
+(* first difference between model and observation of one run: -1 none *)
+Definition run_diff (off : Z) (inp : input) (obs : option (list block)) : Z :=
+  match model_blocks inp, obs with
+  | Panic, None => -1
+  | Ok m, Some o => first_diff 0 o (shift_blocks off m)
+  | _, _ => 0
+  end.
+
+(* over the earlier runs: (all agree, all accepted by the checker, frames delivered so far) *)
+Fixpoint pre_verdict (off : Z) (pre : list (input * list block)) : bool * bool * Z :=
+  match pre with
+  | [] => (true, true, off)
+  | (inp, obs) :: rest =>
+      let a := run_diff off inp (Some obs) =? -1 in
+      let c := C03_check inp (Some obs) in
+      let '(a', c', off') := pre_verdict (off + frames_of obs) rest in
+      (a && a', c && c', off')
+  end.
+
+(* (code, index of the first differing block of the last run; -2 if an earlier run differs) *)
 Definition verdict (c : case) : Z * Z :=
-  let d := match model_blocks (c_inp c), c_obs c with
-           | Panic, None => -1
-           | Ok m, Some o => first_diff 0 o m
-           | _, _ => 0
-           end in
-  (verdict_code (d =? -1) (C03_check (c_inp c) (c_obs c)), d).
+  let '(a, ck, off) := pre_verdict 0 (c_pre c) in
+  let d := run_diff off (c_inp c) (c_obs c) in
+  (verdict_code (a && (d =? -1)) (ck && C03_check (c_inp c) (c_obs c)), if a then d else -2).
 
 (* compact constructors for generated files *)
 Definition G (off nchan : Z) (sampled : list (Z * bool)) : ginfo :=
@@ -46,6 +74,10 @@ Definition S (first dropped : Z) (d : list Z) : seg := {| sg_first := first; sg_
 Definition rep (v n : Z) : list Z := repeat v (Z.to_nat n).
 Definition B (nsamp : Z) (segs : list seg) : block := {| k_nsamp := nsamp; k_segs := segs |}.
 Definition mk (fpp : Z) (gs : list ginfo) (ticks : list (list packet)) (obs : list block) : case :=
-  {| c_inp := {| i_fpp := fpp; i_groups := gs; i_ticks := ticks |}; c_obs := Some obs |}.
+  {| c_pre := []; c_inp := {| i_fpp := fpp; i_groups := gs; i_ticks := ticks |}; c_obs := Some obs |}.
 Definition mkpanic (fpp : Z) (gs : list ginfo) (ticks : list (list packet)) : case :=
-  {| c_inp := {| i_fpp := fpp; i_groups := gs; i_ticks := ticks |}; c_obs := None |}.
+  {| c_pre := []; c_inp := {| i_fpp := fpp; i_groups := gs; i_ticks := ticks |}; c_obs := None |}.
+(* a case whose last run was preceded by other runs on the same source object *)
+Definition after (pre : list case) (c : case) : case :=
+  {| c_pre := flat_map (fun p => c_pre p ++ match c_obs p with Some o => [(c_inp p, o)] | None => [] end) pre;
+     c_inp := c_inp c; c_obs := c_obs c |}.
